@@ -7,8 +7,12 @@
   is `Port::meta()` (which strips the leading ':') followed by range-for / operator[]
   / find / length.  All entries are well-formed (`EntryWF`: key non-empty, NUL-free,
   not starting with ':'; value NUL-free — values MAY contain ':' and '=').
+  `macros_serialize` ties `serialize` to the macro texts of port-sugar.h as transcribed in
+  RtoscModel/MetaMacros.lean (the transcription itself is checked against the compiled header
+  by the `M` ops of the correspondence engine on every run).
 -/
 import RtoscModel.Proofs.MetaLemmas
+import RtoscModel.Proofs.MetaMacros
 namespace Rtosc.Meta
 open Rtosc
 
@@ -113,5 +117,28 @@ example : ∀ x ∈ exEntries, EntryWF x := by
 example : (container (serialize exEntries)).bind (fun m => pairs m) = some exEntries := by decide
 example : (container (serialize exEntries)).bind (fun m => lookup m [97]) = some none := by decide
 example : (container (serialize exEntries)).bind (fun m => length m) = some 24 := by decide
+
+/-- **macros_serialize** ("as the rMap/rProp/rDoc/rOptions macros produce"): the string
+    literal obtained by writing rProp / rMap / rDoc / rOpt (rOptions) / rPreset invocations
+    side by side is `serialize` of the entries they stand for; `rSpecial` is excluded by the
+    hypothesis (it stands for no entry). -/
+theorem macros_serialize (ms : List Macro) (h : ∀ m ∈ ms, m.entry.isSome) :
+    literal ms = serialize (ms.filterMap Macro.entry) :=
+  literal_serialize ms h
+
+/-! Non-vacuity of `macros_serialize`: the metadata of
+    `rOption(mode, rOptions(sine, saw), rDefault(saw), "Wave")`, and what the readers make of
+    a block with `rSpecial(disable)` (outside the statement: the text is skipped, the key
+    `special` has no value). -/
+def exMacros : List Macro :=
+  [.prop (asc "parameter"), .prop (asc "enumerated")] ++ rOptions [asc "sine", asc "saw"] ++
+  [.map (asc "default") (asc "saw"), .doc (asc "Wave")]
+
+example : ∀ m ∈ exMacros, m.entry.isSome := by decide
+example : (container (literal exMacros)).bind (fun m => lookup m (asc "map 1")) = some (some (asc "saw")) := by
+  decide +kernel
+example : (container (literal [.prop (asc "a"), .special (asc "off"), .map (asc "b") (asc "1")])).bind
+    (fun m => pairs m) = some [(asc "a", none), (asc "special", none), (asc "b", some (asc "1"))] := by
+  decide +kernel
 
 end Rtosc.Meta
